@@ -47,9 +47,9 @@ def _evals(fam, units):
             lambda a, T: float(S.get_shomate_SoR(np.array(a), np.array([T]), units)[0]))
 
 
-def _statmech(rnd, gas):
+def _statmech(rnd, gas, nmodes=None):
     from pmutt.statmech import StatMech, trans, vib, rot, elec
-    n = rnd.randint(1, 9)
+    n = nmodes or rnd.choice([1, 1, 2, 3, 5, 9, 15])          # diatomic ... 15-mode adsorbate
     wn = [rnd.uniform(150, 4000) for _ in range(n)]
     kw = dict(name='src', vib_model=vib.HarmonicVib(vib_wavenumbers=wn),
               elec_model=elec.GroundStateElec(potentialenergy=rnd.uniform(-3, 0), spin=rnd.choice([0, 0.5, 1])),
@@ -95,6 +95,11 @@ def execute(case):
     T_high = rnd.uniform(max(1200.0, T_low + 800), 3000)
     if src.startswith('statmech'):
         T_low = max(T_low, 150.0)
+    if case.get('nmodes'):
+        # from_model evaluates the source on the whole temperature grid at once: a one-mode (diatomic) source, or a
+        # grid as long as the number of modes, makes that call broadcast; keep the window narrow enough to be judged
+        T_low = rnd.uniform(300, 500)
+        T_high = T_low * rnd.uniform(2.5, 3.8)
     # interior breaks requested from the library
     if fam == 'nasa9':
         fr = sorted(rnd.uniform(0.25, 0.75) for _ in range(nseg - 1))
@@ -106,6 +111,10 @@ def execute(case):
     else:
         brk = []
     npts = rnd.choice([15, 40, 120, 200]) * max(1, nseg) if fam != 'nasa7' else rnd.choice([30, 60, 200])
+    if fam == 'shomate' and rnd.random() < 0.3:
+        npts = 15                                    # can coincide with the number of modes of the source
+    if case.get('nmodes') == 15 and fam == 'shomate':
+        npts = 15                                    # (NASA fits need >= 10 points per segment)
     T = np.linspace(T_low, T_high, npts)
     if fam == 'nasa7' and case['tmid'] != 'none':
         brk = [float(T[rnd.randrange(10, npts - 10)])]      # a data point, at least 10 points each side
@@ -131,7 +140,7 @@ def execute(case):
              'shomate': [0] * 5 + [rnd.uniform(-50, 50), rnd.uniform(100, 200), 0]}[fam]
         pieces = [z] * (len(edges) - 1)
     else:
-        model = _statmech(rnd, src == 'statmech_gas')
+        model = _statmech(rnd, src == 'statmech_gas', case.get('nmodes'))
         pieces = None
 
     def seg_of(t):
@@ -165,7 +174,14 @@ def execute(case):
         T_ref = None
     tm_arg = {}
     if fam == 'nasa7':
-        tm_arg = {'none': {}, 'scalar': {'T_mid': brk[0]}, 'list': {'T_mid': [brk[0]]}}[case['tmid']]
+        guesses = [brk[0]]
+        if case['tmid'] == 'list':
+            k = rnd.random()
+            if k < 0.35:                             # an edge guess (within the lowest data points) first
+                guesses = [float(T[rnd.randrange(1, 4)]), brk[0], float(T[rnd.randrange(npts // 2, npts - 10)])]
+            elif k < 0.7:                            # several interior guesses, ascending
+                guesses = sorted({float(T[rnd.randrange(10, npts - 10)]) for _ in range(3)})
+        tm_arg = {'none': {}, 'scalar': {'T_mid': brk[0]}, 'list': {'T_mid': guesses}}[case['tmid']]
     elif fam == 'nasa9':
         tm_arg = {'none': {}, 'scalar': {'T_mid': brk[0] if brk else None},
                   'list': {'T_mid': np.array(brk) if case['cseed'] % 2 else list(brk)}}[case['tmid']]
@@ -234,7 +250,12 @@ def execute(case):
             s = src_vals(t) if (model is not None or src != 'piecewise') else f
             if route == 'model' and model is None:
                 s = src_vals(t)
-            samples.append([to_dec(t)] + [to_dec(x) for x in f] + [to_dec(x) for x in s])
+            oedges = [float(obj.T_low)] + obrk + [float(obj.T_high)]
+            j = 0
+            while j < len(oedges) - 2 and t > oedges[j + 1]:
+                j += 1
+            npt = int(((T >= oedges[j]) & (T <= oedges[j + 1])).sum())
+            samples.append([to_dec(t)] + [to_dec(x) for x in f] + [to_dec(x) for x in s] + [1 if npt >= 10 else 0])
             for j in range(3):
                 worst[j] = max(worst[j], abs(f[j] - s[j]))
         e['samples'] = samples
@@ -281,6 +302,10 @@ def run(ctx):
                 if c['route'] == 'model' and c['fam'] == 'nasa9' and c['tmid'] != 'list' and rep % 3:
                     continue                     # Nelder-Mead T_mid search is slow (~0.5 s): every third repetition
                 cases.append(dict(c, cseed=rnd.randrange(1 << 30)))
+                if c['route'] == 'model' and c['src'].startswith('statmech') and not (c['fam'] == 'nasa9' and c['tmid'] != 'list'):
+                    # the vectorised source evaluation: diatomic sources and grids as long as the mode list
+                    for nm in (1, 15):
+                        cases.append(dict(c, cseed=rnd.randrange(1 << 30), nmodes=nm))
     results = core.pmap(_safe, cases)
     traces = []
     worst = {}
